@@ -267,6 +267,8 @@ fn c11_suite<S: ShortGroupSignatureScheme>(em: &mut Emitter, base: &mut Rng, sui
                     if short == "total_values" && (how == "number-plus-2^16" || how == "number-plus-2^32" || how == "number-plus-2^63") {
                         // the recorded finding: total_values enters the hashed bytes truncated to 16 bits
                         em.violation("c11:enum-total-truncated-u16", format!("{}: presentation still accepted after {} of leaf {}", suite, how, path.join("/")), scn.replay(json!({"suite": suite, "path": path, "how": how})));
+                    } else if how == "id-of-sibling-statement" {
+                        em.violation("c11:accepted-after-mutation:proof-id", format!("{}: presentation still accepted after the id inside the proof at {} was replaced by the id of another statement", suite, path.join("/")), scn.replay(json!({"suite": suite, "path": path, "how": how, "presentation": v2})));
                     } else if property_leaf(path, kind) {
                         em.violation(&format!("c11:accepted-after-mutation:{}", short), format!("{}: presentation still accepted after {} of leaf {}", suite, how, path.join("/")), scn.replay(json!({"suite": suite, "path": path, "how": how, "presentation": v2})));
                     } else {
